@@ -58,7 +58,7 @@ def optKindName : String → String
   | "0" => "0(none)" | "1" => "1(one)" | "2" => "2(all)" | "3" => "3(zero-valued)" | "4" => "4(negative)"
   | "5" => "5(empty/reordered/repeated)" | o => o
 def ctxKindName : Nat → String
-  | 0 => "background" | 1 => "far-deadline" | 2 => "cancelled" | _ => "?"
+  | 0 => "background" | 1 => "far-deadline" | 2 => "cancelled" | 3 => "deadline-expired" | _ => "?"
 def exitKindName : Nat → String
   | 1 => "panic-string" | 2 => "panic-error-value" | 3 => "runtime.Goexit" | _ => "?"
 
@@ -167,9 +167,9 @@ def runSection (r : Report) (s : Section) : Report := Id.run do
     if o.goexit then r := r.addCover s!"{who}-call-ended-by-goexit"
     if via ≠ "" then r := r.addCover s!"{via}-entry-point-{o.ep}"
     if o.ep ≥ 2 then r := r.addCover s!"{via}-context-kind-{o.cx}({ctxKindName o.cx})"
-    if o.lkerr && o.cx = 2 then r := r.addCover s!"{via}-cancelled-context-lookup-error"
-    if o.lkerr && o.cx ≠ 2 then r := r.addCover s!"{via}-joiner-got-leaders-lookup-error"
-    if !o.lkerr && o.cx = 2 then r := r.addCover s!"{via}-cancelled-context-joined-a-healthy-flight"
+    if o.lkerr && o.deadCtx then r := r.addCover s!"{via}-cancelled-context-lookup-error"
+    if o.lkerr && !o.deadCtx then r := r.addCover s!"{via}-joiner-got-leaders-lookup-error"
+    if !o.lkerr && o.deadCtx then r := r.addCover s!"{via}-cancelled-context-joined-a-healthy-flight"
     if o.ran then r := r.addCover s!"{mode}-executed" else r := r.addCover s!"{mode}-shared"
     if o.err.isSome then r := r.addCover s!"{mode}-err-result"
     if o.hold then r := r.addCover s!"{mode}-held"
